@@ -22,3 +22,161 @@ Theorem C13_normalize_rejects : forall d size elements,
   (0 < size)%nat -> (length elements mod size <> 0)%nat -> normalize d size elements = Err RuntimeErr.
 Proof. exact normalize_rejects. Qed.
 Print Assumptions C13_normalize_rejects.
+
+From V Require Import Base Convert ConvertProofs ConvertFull ConvertEntry.
+
+(* the bit-serial encoder computed in int64 arithmetic (what the library does after its cast) IS the mathematical encoder - unconditionally *)
+Theorem C13_encode_in_I64 :
+  forall (w n : nat) (s : list Z), encode_in I64 w n s = Codec.encode w n s.
+Proof. exact @encode_in_I64. Qed.
+Print Assumptions C13_encode_in_I64.
+
+(* states stored in ANY integer dtype that holds them, cast to int64 and encoded, give the code of the logical state *)
+Theorem C13_lib_encode_spec :
+  forall (d : dtype) (w n : nat) (s : list Z),
+         Forall (in_dt d) s -> lib_encode d w n (map (store_as d) s) = Codec.encode w n s.
+Proof. exact @lib_encode_spec. Qed.
+Print Assumptions C13_lib_encode_spec.
+
+(* encoding in a NARROW dtype would be harmless exactly while the whole code fits its value bits ... *)
+Theorem C13_encode_in_fits :
+  forall (d : dtype) (w n : nat) (s : list Z),
+         (n * w <= value_bits d)%nat -> encode_in d w n s = Codec.encode w n s.
+Proof. exact @encode_in_fits. Qed.
+Print Assumptions C13_encode_in_fits.
+
+(* ... and ONLY then: for every narrower dtype and every n*w beyond its value bits some valid state is mis-encoded - the int64 cast is necessary (dropping it is a defect) *)
+Theorem C13_encode_in_harmless_iff :
+  forall (d : dtype) (w n : nat),
+         d <> I64 ->
+         (1 <= w <= value_bits d)%nat ->
+         (forall s : list Z, encode_in d w n s = Codec.encode w n s) <-> (n * w <= value_bits d)%nat.
+Proof. exact @encode_in_harmless_iff. Qed.
+Print Assumptions C13_encode_in_harmless_iff.
+
+(* every form (flat, rows, matrix-shaped states) of the same logical batch in every dtype normalises to the same batch *)
+Theorem C13_normalize_form_independent :
+  forall (d : dtype) (size : nat) (f : cform) (batch : list (list Z)) (c : container),
+         (0 < size)%nat ->
+         Forall (fun row : list Z => length row = size) batch ->
+         Forall (Forall (in_dt d)) batch ->
+         applicable f batch = true ->
+         present d f batch = Some c -> normalize_states d size c = Ok batch.
+Proof. exact @normalize_form_independent. Qed.
+Print Assumptions C13_normalize_form_independent.
+
+(* central state: flat, one-row batch, matrix-shaped and digit-string forms give the same state *)
+Theorem C13_normalize_central_form_independent :
+  forall (d : dtype) (f : cform) (row : list Z) (c : container),
+         Forall (in_dt d) row ->
+         applicable_central f row = true ->
+         present d f [row] = Some c -> normalize_central d c = Ok row.
+Proof. exact @normalize_central_form_independent. Qed.
+Print Assumptions C13_normalize_central_form_independent.
+
+(* ragged nesting is refused (ValueError) *)
+Theorem C13_normalize_states_ragged2 :
+  forall (d : dtype) (size : nat) (ll : list (list Z)),
+         ragged ll -> normalize_states d size (C2 ll) = Err ValueErr.
+Proof. exact @normalize_states_ragged2. Qed.
+Print Assumptions C13_normalize_states_ragged2.
+
+(* a total length that is not a multiple of the state size is refused (RuntimeError) *)
+Theorem C13_normalize_states_bad_size :
+  forall (d : dtype) (size : nat) (c : container),
+         (0 < size)%nat ->
+         is_rect c = true ->
+         (length (elements_of c) mod size)%nat <> 0%nat -> normalize_states d size c = Err RuntimeErr.
+Proof. exact @normalize_states_bad_size. Qed.
+Print Assumptions C13_normalize_states_bad_size.
+
+(* a string is accepted iff all its characters are digits *)
+Theorem C13_central_of_string_spec :
+  forall s : String.string,
+         match central_of_string s with
+         | Ok row => map digit_val (chars s) = map Some row
+         | Err e => e = ValueErr /\ (exists c : Ascii.ascii, In c (chars s) /\ digit_val c = None)
+         end.
+Proof. exact @central_of_string_spec. Qed.
+Print Assumptions C13_central_of_string_spec.
+
+(* SCHEMA: any function of the normalised batch gives the same answer for any two (dtype, form) presentations, namely its answer on the logical batch *)
+Theorem C13_entry_container_independent :
+  forall (R : Type) (f : list (list Z) -> R) (size : nat) (d1 : dtype) 
+           (form1 : cform) (d2 : dtype) (form2 : cform) (batch : list (list Z)),
+         (0 < size)%nat ->
+         Forall (fun row : list Z => length row = size) batch ->
+         Forall (Forall (in_dt d1)) batch ->
+         Forall (Forall (in_dt d2)) batch ->
+         applicable form1 batch = true ->
+         applicable form2 batch = true ->
+         option_map f (norm d1 size form1 batch) = option_map f (norm d2 size form2 batch) /\
+         option_map f (norm d1 size form1 batch) = Some (f batch).
+Proof. exact @entry_container_independent. Qed.
+Print Assumptions C13_entry_container_independent.
+
+(* instance: the BFS model on impl_of d from start states in any container *)
+Theorem C13_bfs_container_independent :
+  forall (size : nat) (batch : list (list Z)) (d1 d2 : dtype) (form1 form2 : cform),
+         (0 < size)%nat ->
+         Forall (fun row : list Z => length row = size) batch ->
+         Forall (Forall (in_dt d1)) batch ->
+         Forall (Forall (in_dt d2)) batch ->
+         applicable form1 batch = true ->
+         applicable form2 batch = true ->
+         forall (dsc : GraphImpl.gdesc) (cfg : Bfs.bfs_cfg),
+         via (fun starts : list (list Z) => Bfs.bfs (BfsRun.impl_of dsc) cfg starts) d1 size form1
+           batch =
+         via (fun starts : list (list Z) => Bfs.bfs (BfsRun.impl_of dsc) cfg starts) d2 size form2
+           batch /\
+         via (fun starts : list (list Z) => Bfs.bfs (BfsRun.impl_of dsc) cfg starts) d1 size form1
+           batch = Some (Bfs.bfs (BfsRun.impl_of dsc) cfg batch).
+Proof. exact @bfs_container_independent. Qed.
+Print Assumptions C13_bfs_container_independent.
+
+(* instance: apply_path *)
+Theorem C13_apply_path_container_independent :
+  forall (size : nat) (batch : list (list Z)) (d1 d2 : dtype) (form1 form2 : cform),
+         (0 < size)%nat ->
+         Forall (fun row : list Z => length row = size) batch ->
+         Forall (Forall (in_dt d1)) batch ->
+         Forall (Forall (in_dt d2)) batch ->
+         applicable form1 batch = true ->
+         applicable form2 batch = true ->
+         forall (dsc : GraphImpl.gdesc) (path : list nat),
+         via (apply_path_states (BfsRun.impl_of dsc) path) d1 size form1 batch =
+         via (apply_path_states (BfsRun.impl_of dsc) path) d2 size form2 batch /\
+         via (apply_path_states (BfsRun.impl_of dsc) path) d1 size form1 batch =
+         Some (apply_path_states (BfsRun.impl_of dsc) path batch).
+Proof. exact @apply_path_container_independent. Qed.
+Print Assumptions C13_apply_path_container_independent.
+
+(* instance: find_path *)
+Theorem C13_find_path_container_independent :
+  forall (size : nat) (batch : list (list Z)) (d1 d2 : dtype) (form1 form2 : cform),
+         (0 < size)%nat ->
+         Forall (fun row : list Z => length row = size) batch ->
+         Forall (Forall (in_dt d1)) batch ->
+         Forall (Forall (in_dt d2)) batch ->
+         applicable form1 batch = true ->
+         applicable form2 batch = true ->
+         forall (e : PathRun.path_env) (ball_fwd ball_inv : list (list Z) * nat),
+         via (single (PathRun.find_path_one e ball_fwd ball_inv)) d1 size form1 batch =
+         via (single (PathRun.find_path_one e ball_fwd ball_inv)) d2 size form2 batch /\
+         via (single (PathRun.find_path_one e ball_fwd ball_inv)) d1 size form1 batch =
+         Some (single (PathRun.find_path_one e ball_fwd ball_inv) batch).
+Proof. exact @find_path_container_independent. Qed.
+Print Assumptions C13_find_path_container_independent.
+
+(* instance: central-state definitions (string form included) *)
+Theorem C13_with_central_container_independent :
+  forall (dsc : GraphImpl.gdesc) (d1 d2 : dtype) (f1 f2 : cform) (row : list Z)
+           (c1 c2 : container),
+         Forall (in_dt d1) row ->
+         Forall (in_dt d2) row ->
+         applicable_central f1 row = true ->
+         applicable_central f2 row = true ->
+         present d1 f1 [row] = Some c1 ->
+         present d2 f2 [row] = Some c2 -> with_central dsc d1 c1 = with_central dsc d2 c2.
+Proof. exact @with_central_container_independent. Qed.
+Print Assumptions C13_with_central_container_independent.
